@@ -18,7 +18,19 @@ emit :: (c: i32) { putchar(c); }
 def render_fn(name, prog):
     """tokens -> Capy function text"""
     out = ["%s :: () -> ?i32 {" % name, "    one := 1;", "    nilv : ?i32 = nil;",
-           "    okv : ?i32 = 5;"]
+           "    okv : ?i32 = 5;", "    zarr := void.[{}, {}];"]
+
+    def match_end(k):            # 1-based position of the end token matching the open token at k
+        depth = 0
+        for j in range(k, len(prog) + 1):
+            t = prog[j - 1]["t"]
+            if t in ("blk", "loop", "cblk"):
+                depth += 1
+            elif t == "end":
+                depth -= 1
+                if depth == 0:
+                    return j
+        return len(prog) + 1
     stack = []  # (kind, pos)
     ind = 1
 
@@ -29,8 +41,18 @@ def render_fn(name, prog):
         if t == "d":
             line("defer emit(%d);" % (64 + k))
         elif t == "blk":
-            line(("`a: {" if tk["a"] == 1 else "{"))
-            stack.append(("blk", k))
+            # every second unlabeled block is written as the INDEX of an array of zero-sized
+            # elements (`zarr[{ .. 0 }]`): the language gives it the same meaning - the block runs,
+            # its defers run when it is left - although there is nothing to load
+            m = match_end(k)
+            last = prog[m - 2] if m - 2 >= k else None
+            as_index = tk["a"] == 0 and k % 2 == 1 and not (last and last["t"] == "jmp" and last["a"] != "try")
+            if as_index:
+                line("zq%d := zarr[{" % k)
+                stack.append(("iblk", k))
+            else:
+                line(("`a: {" if tk["a"] == 1 else "{"))
+                stack.append(("blk", k))
             ind += 1
         elif t == "loop":
             line("i%d := 0;" % k)
@@ -48,16 +70,18 @@ def render_fn(name, prog):
             ind += 1
         elif t == "end":
             kind, pos = stack.pop()
+            if kind == "iblk":
+                line("0")
             ind -= 1
-            line("}")
-            if kind in ("blk", "loop"):
+            line("}];" if kind == "iblk" else "}")
+            if kind in ("blk", "loop", "iblk"):
                 line("emit(%d);" % (96 + pos))
         elif t == "tryok":
             line("okv.try;")
         elif t == "jmp":
             a, b = tk["a"], tk["b"]
             if a == "break":
-                to_fn = b == 0 and not any(kk == "loop" or (kk == "blk" and prog[p - 1]["a"] == 1)
+                to_fn = b == 0 and not any(kk == "loop" or (kk in ("blk", "iblk") and prog[p - 1]["a"] == 1)
                                            for (kk, p) in stack)
                 # an unlabeled break outside every loop / labeled block leaves the function
                 # (the compiler warns) and therefore needs the function's value
